@@ -58,20 +58,32 @@ Definition sym_matches (p : pt) (e : env) (sym_impl : option Q) : bool :=
 Definition check_corr (c : case) : bool :=
   match c with
   | CTpl p e sym_impl prog =>
-      match (if miss_pt [] e p then match prog with IErr _ => None | _ => Some tt end else Some tt) with
+      (* an error is always an acceptable answer where the template denotes no duration (den = None), and where a
+         parameter is missing *)
+      match (if miss_pt [] e p then None      (* sympy may simplify the missing name away (t - t = 0): nothing compared *)
+             else match prog with
+                  | IErr _ => match den p (qenv_of e) with None => None | Some _ => Some tt end
+                  | _ => Some tt
+                  end) with
       | None => true
       | Some _ =>
       match cp p e with
       | Inexact => true
       | Err k => match prog with IErr k' => errclass_eqb (class_of k) k' | _ => false end
-      | Ok [] => match prog with INone => true | _ => false end
       | Ok kids =>
-          match prog with
-          | IProg a b c => Qeq_bool a (total kids) && oq_eqb b (wf_duration (Node 1 kids))
-                           && Qeq_bool c (sum_pieces 1 (Node 1 kids))
-          | _ => false
+          (* an empty program counts as zero: None and a program whose three durations are 0 are the same observation *)
+          let model := match kids with
+                       | [] => (0, Some 0, 0)
+                       | _ => (total kids, wf_duration (Node 1 kids), sum_pieces 1 (Node 1 kids))
+                       end in
+          match model, prog with
+          | (ma, mb, mc), IProg a b c => Qeq_bool a ma && oq_eqb b mb && Qeq_bool c mc
+          | (ma, mb, mc), INone => Qeq_bool 0 ma && oq_eqb (Some 0) mb && Qeq_bool 0 mc
+          | _, IErr _ => false
           end
-      end end && sym_matches p e sym_impl
+      end end
+      && (* the symbolic value is compared only where the template denotes a duration at all *)
+         match den p (qenv_of e) with Some _ => sym_matches p e sym_impl | None => true end
   | CRange a b s impl => list_eqb Z.eqb (zrange a b s) impl
   | CCrash => false
   end.
